@@ -332,9 +332,6 @@ def check(rep, tier, seed):
         if name in ("callbacks-terminate", "callbacks-interrupt"):
             # the default quantum as an explicit schedule (so that the step budget applies), then coarse random slices
             jobs.append((name, exp, "list:500:500"))
-            for i in range(4 if tier == "quick" else 60):
-                jobs.append((name, exp, "seed:%d:%d" % (rng.randrange(1, 10 ** 9), (500, 100)[i % 2])))
-            continue
         for i in range(nseeds):
             q = quanta[i % len(quanta)]
             jobs.append((name, exp, "seed:%d:%d" % (rng.randrange(1, 10 ** 9), q)))
@@ -352,7 +349,7 @@ def check(rep, tier, seed):
         if sched:
             env["CHIBI_VERIF_SCHED"] = sched
         if name in ("callbacks-terminate", "callbacks-interrupt") and sched:
-            env["CHIBI_VERIF_MAXSLICES"] = 300000      # a complete run needs about 4e4 quanta of >= 100 instructions
+            env["CHIBI_VERIF_MAXSLICES"] = 30000000    # a complete run needs about 4e6 quanta of 1 instruction
         if name == "callbacks" and sched:
             # CPU-only program: "never finishes" is decided in logical steps (quanta handed out), not by the wall clock;
             # the longest legitimate run (slices of 1 instruction) needs about 2e5
